@@ -79,6 +79,123 @@ func lockOp(cc *ssa.CallCommon) (op, key string, ok bool) {
 // heldLocks computes, for every instruction of fn, the set of lock keys certainly held (must analysis).
 // Deferred unlocks keep the lock until the function returns.
 func heldLocks(fn *ssa.Function) map[ssa.Instruction]map[string]bool {
+	return heldLocksFrom(fn, entryLocks[fn])
+}
+
+// entryLocks: locks certainly held whenever a function is entered — the intersection, over every call site the
+// module has for it (VTA), of the locks held at the site; only for unexported functions that are never started with
+// `go`, never deferred and never escape as a value whose call sites are unknown.  Computed by computeEntryLocks.
+var entryLocks = map[*ssa.Function]map[string]bool{}
+var entryLocksFor *Program
+
+func computeEntryLocks(p *Program) {
+	if entryLocksFor == p {
+		return
+	}
+	entryLocksFor = p
+	entryLocks = map[*ssa.Function]map[string]bool{}
+	cg := p.CG()
+	type siteRef struct {
+		caller *ssa.Function
+		ins    ssa.Instruction
+	}
+	sites := map[*ssa.Function][]siteRef{}
+	eligible := map[*ssa.Function]bool{}
+	for _, fn := range p.RepoFns {
+		if fn.Parent() != nil || fn.Blocks == nil {
+			continue
+		}
+		name := fn.Name()
+		if name == "" || (name[0] >= 'A' && name[0] <= 'Z') || name == "init" || name == "main" {
+			continue
+		}
+		n := cg.Nodes[fn]
+		if n == nil || len(n.In) == 0 {
+			continue
+		}
+		ok := true
+		for _, e := range n.In {
+			if e.Site == nil || !InRepo(e.Caller.Func) {
+				ok = false
+				break
+			}
+			if _, isCall := e.Site.(*ssa.Call); !isCall {
+				ok = false // go / defer: the lock state at the time it runs is not the state at the statement
+				break
+			}
+			sites[fn] = append(sites[fn], siteRef{e.Caller.Func, e.Site})
+		}
+		if ok {
+			eligible[fn] = true
+		}
+	}
+	// start from "everything the callers hold at the first site", shrink to a fixpoint
+	for fn := range eligible {
+		entryLocks[fn] = nil // nil = top (not yet constrained)
+	}
+	top := map[*ssa.Function]bool{}
+	for fn := range eligible {
+		top[fn] = true
+	}
+	for round := 0; round < 8; round++ {
+		changed := false
+		cache := map[*ssa.Function]map[ssa.Instruction]map[string]bool{}
+		heldAt := func(s siteRef) (map[string]bool, bool) {
+			if top[s.caller] {
+				return nil, false // caller itself unconstrained yet: skip this round
+			}
+			h, ok := cache[s.caller]
+			if !ok {
+				h = heldLocksFrom(s.caller, entryLocks[s.caller])
+				cache[s.caller] = h
+			}
+			return h[s.ins], true
+		}
+		for fn := range eligible {
+			var acc map[string]bool
+			first := true
+			known := false
+			for _, s := range sites[fn] {
+				h, ok := heldAt(s)
+				if !ok {
+					continue
+				}
+				known = true
+				if first {
+					acc = map[string]bool{}
+					for k := range h {
+						acc[k] = true
+					}
+					first = false
+				} else {
+					for k := range acc {
+						if !h[k] {
+							delete(acc, k)
+						}
+					}
+				}
+			}
+			if !known {
+				continue
+			}
+			if top[fn] || len(acc) != len(entryLocks[fn]) {
+				top[fn] = false
+				entryLocks[fn] = acc
+				changed = true
+			}
+		}
+		if !changed {
+			break
+		}
+	}
+	for fn := range top {
+		if top[fn] {
+			entryLocks[fn] = nil // only reachable from unconstrained cycles: assume nothing
+		}
+	}
+}
+
+func heldLocksFrom(fn *ssa.Function, entry map[string]bool) map[ssa.Instruction]map[string]bool {
 	out := map[*ssa.BasicBlock]map[string]bool{}
 	res := map[ssa.Instruction]map[string]bool{}
 	clone := func(m map[string]bool) map[string]bool {
@@ -113,6 +230,11 @@ func heldLocks(fn *ssa.Function) map[ssa.Instruction]map[string]bool {
 				st = map[string]bool{}
 				if b.Index != 0 && first && len(b.Preds) > 0 {
 					continue
+				}
+				if b.Index == 0 {
+					for k := range entry {
+						st[k] = true
+					}
 				}
 			}
 			for _, ins := range b.Instrs {
@@ -151,15 +273,15 @@ func subset(a, b map[string]bool) bool {
 
 // CellAccess is one access to a potentially guarded cell.
 type CellAccess struct {
-	Cell     string
-	Kind     string // load | store | mapread | mapwrite
-	Fn       *ssa.Function
-	Ins      ssa.Instruction
-	Held     map[string]bool
-	InOnce   map[string]bool // once keys whose Do-closure (lexically) contains this instruction
-	AfterDo  map[string]bool // once keys whose Do call dominates this instruction in the same function
-	Fresh    bool            // the base object was allocated in this function (constructor)
-	InInit   bool
+	Cell    string
+	Kind    string // load | store | mapread | mapwrite
+	Fn      *ssa.Function
+	Ins     ssa.Instruction
+	Held    map[string]bool
+	InOnce  map[string]bool // once keys whose Do-closure (lexically) contains this instruction
+	AfterDo map[string]bool // once keys whose Do call dominates this instruction in the same function
+	Fresh   bool            // the base object was allocated in this function (constructor)
+	InInit  bool
 }
 
 // GuardInfo is the result of scanning the module.
@@ -171,6 +293,7 @@ type GuardInfo struct {
 }
 
 func scanGuards(p *Program) *GuardInfo {
+	computeEntryLocks(p)
 	gi := &GuardInfo{SyncOwner: map[string][]string{}, GlobalSync: map[string][]string{}, SyncKinds: map[string]string{}}
 	// discover sync fields and globals
 	for _, pk := range p.Roots {
